@@ -308,9 +308,10 @@ class StateMachine(metaclass=StateMachineMetaclass):
             See: :ref:`triggering events`.
 
         """
-        event_instance: BoundEvent = getattr(
-            self, event, BoundEvent(id=event, name=event, _sm=self)
-        )
+        if event in self.__class__._events:
+            event_instance: BoundEvent = getattr(self, event)
+        else:
+            event_instance = BoundEvent(id=event, name=event, _sm=self)
         result = event_instance(*args, **kwargs)
         if not isawaitable(result):
             return result
